@@ -274,7 +274,7 @@ def body_tokens(fop):
 
 # ------------------------------------------------------------------ interpreter of the real IR
 def bid(b, off):
-    return b * 1048576 + 524288 + off  # same encoding as Model/C15Pipeline.v bid
+    return off * 4096 + b  # same encoding as Model/C15Pipeline.v bid
 
 
 class Interp:
